@@ -1,6 +1,9 @@
 package sim
 
-import "fmt"
+import (
+	"fmt"
+	"testing"
+)
 
 // Generators: PLAN = f(tape). One per profile; swarm configuration per run.
 
@@ -257,6 +260,19 @@ func genHistory(t *Tape, k *Knobs, m mix, n int) []Step {
 
 // Profiles ---------------------------------------------------------------
 
+type PropSpec struct {
+	ID             string
+	Profiles       []string
+	Characteristic []string // probe prefixes: a run is non-trivial for the property if it hit at least one
+	Rule           string
+	Level          string
+	Enumerate      func(t *testing.T, job *Job, out *WorkerOut, found map[string]*Found) map[string]interface{}
+}
+
+var PropSpecs = map[string]*PropSpec{}
+
+func regProp(p *PropSpec) { PropSpecs[p.ID] = p }
+
 type Profile struct {
 	Name string
 	Prop string
@@ -268,6 +284,8 @@ var Profiles = map[string]*Profile{}
 func reg(p *Profile) { Profiles[p.Name] = p }
 
 func init() {
+	regProp(&PropSpec{ID: "C01", Profiles: []string{"c01"}, Characteristic: []string{"code-replay"}, Level: "exploration",
+		Rule: "seeded sequential histories (authorize/redeem/refresh/revoke/introspect/advance, 3 clients, code+hybrid flows, swarm config); non-trivial = the history replays an already-redeemed code at least once; distinct = distinct abstract history shape x store x token strategy"})
 	reg(&Profile{Name: "c01", Prop: "C01", Gen: func(t *Tape) *Plan {
 		k := swarmKnobs(t)
 		m := mix{authz: 14, hybrid: 6, redeem: 22, redeemBad: 4, refresh: 14, refreshOld: 2, refreshForeign: 1, introspect: 6, revoke: 3, revokeBad: 1, advance: 8, pkce: 25}
